@@ -19,6 +19,7 @@ from vf.pyvc import extract
 from props.C18 import _ed_script_difflib
 
 MOD = "debian.debian_support"
+from vf import tricky
 
 
 def sha1(lines, family="SHA1"):
@@ -146,7 +147,7 @@ def run_deductive(ctx):
 
 def gen_versions(rng):
     pool = ["Package: a\n", "Version: 1\n", "\n", "Package: b\n", "Depends: a, b\n", "Description: é\n", " more\n", ".\n", " .\n", "x\n",
-            "Description: a\u2028b\n", "ff\x0cx\n", " n\x85l \x1c\n"]
+            "Description: a\u2028b\n", "ff\x0cx\n", " n\x85l \x1c\n"] + ["X: %s\n" % b for b in tricky.VALUE_BITS if b not in (".",)]
     v = [rng.choice(pool) for _ in range(rng.randint(0, 6))]
     out = [list(v)]
     for _ in range(rng.randint(0, 3)):
@@ -319,6 +320,15 @@ def run(ctx):
                 if result != cur or after != cur or leftover:
                     t.failed("local file / returned lines differ from the published content", scenario=desc, result=result,
                              local_after=after, published=cur, leftover=leftover)
+                    break
+                # converged: updating again changes nothing and still returns the published content
+                try:
+                    result2 = real.update_file(remote, local)
+                except Exception as e:
+                    t.failed("a second update_file on the converged copy raised %r" % (e,), scenario=desc)
+                    break
+                if result2 != cur or read_local(local) != cur or os.path.exists(local + ".new"):
+                    t.failed("a second update_file on the converged copy changed something", scenario=desc, result=result2)
                     break
             shutil.rmtree(root, ignore_errors=True)
             if t.fail:
